@@ -661,5 +661,87 @@ def no_stale(ctx):
                        'the index returned belongs to an earlier query', min_methods=5)
 
 
-RULES = [no_stale, formula_law, formula_dispatch, arity, lookup_literal, abbe,
+def model_glass(ctx):
+    """structure of the (n_d, V_d) model glass; the accuracy of the fitted
+    coefficients is a numerical matter and is declined."""
+    from ..match import find, find_seq
+    import os
+    P = ctx.P
+    res = Result('MODEL-GLASS', 'AbbeMaterial: index = polyval(p, wavelength) '
+                 'with p = [n, V, n^2, V^2, n^3, V^3] @ coefficients; the '
+                 'coefficient file has six rows; k = 0; constructor keeps '
+                 '(n, abbe) in (index, abbe)')
+    gi = P.func('AbbeMaterial.__init__')
+    gn = P.func('AbbeMaterial.n')
+    gk = P.func('AbbeMaterial.k')
+    gc = P.func('AbbeMaterial._get_coefficients')
+    for f in (gi, gn, gk, gc):
+        res.saw(f)
+    if find(gi, 'self.index = n') and find(gi, 'self.abbe = abbe') and \
+            find(gi, 'self._p = self._get_coefficients()'):
+        si = Code(P, gi)
+        if si.index('self._p = self._get_coefficients()') > max(
+                si.index('self.index = n'), si.index('self.abbe = abbe')):
+            res.ok('constructor: index, abbe stored before the coefficients '
+                   'are derived from them')
+        else:
+            res.fail(ctx.finding('MODEL-GLASS', gi, gi.node,
+                                 'coefficients derived before index / abbe '
+                                 'are stored', construct='AbbeMaterial init '
+                                 'order'))
+    else:
+        res.fail(ctx.finding('MODEL-GLASS', gi, gi.node,
+                             'AbbeMaterial.__init__ does not keep (n, abbe) '
+                             'and derive the polynomial from them',
+                             construct='AbbeMaterial init'))
+    if find(gn, f'return np.polyval(self._p, {gn.params[0]})'):
+        res.ok('n(w) = polyval(p, w)')
+    else:
+        res.fail(ctx.finding('MODEL-GLASS', gn, gn.node,
+                             'n(w) is not polyval(p, w)',
+                             construct='AbbeMaterial.n'))
+    if find(gk, 'return 0'):
+        res.ok('k(w) = 0')
+    else:
+        res.fail(ctx.finding('MODEL-GLASS', gk, gk.node,
+                             'model glass is no longer lossless',
+                             construct='AbbeMaterial.k'))
+    sols = find_seq(gc, ['$X = np.array([self.index, self.abbe])',
+                         '$XP = np.hstack([$X ** $i for $i in range(1, 4)])',
+                         '$C = np.load($file)', 'return $XP @ $C'])
+    fn = None
+    for nd in ast.walk(gc.node):
+        if isinstance(nd, ast.Constant) and isinstance(nd.value, str) and \
+                nd.value.endswith('.npy'):
+            fn = nd.value
+    if sols and fn:
+        path = os.path.normpath(os.path.join(
+            ctx.P.root, 'optiland', 'materials', fn))
+        try:
+            with open(path, 'rb') as fh:
+                head = fh.read(256)
+            import re as _re
+            m = _re.search(rb"'shape': \((\d+), (\d+)\)", head)
+            shape = (int(m.group(1)), int(m.group(2))) if m else None
+        except OSError:
+            shape = None
+        if shape and shape[0] == 6:
+            res.ok(f'features [n, V, n^2, V^2, n^3, V^3] @ coefficients '
+                   f'{shape}: polynomial of degree {shape[1] - 1} in the '
+                   f'wavelength')
+        else:
+            res.fail(ctx.finding('MODEL-GLASS', gc, gc.node,
+                                 f'coefficient file {fn} has shape {shape}; '
+                                 f'six feature rows expected',
+                                 construct='glass model file shape'))
+    else:
+        res.fail(ctx.finding('MODEL-GLASS', gc, gc.node,
+                             'feature vector of the glass model is not '
+                             '[n, V, n^2, V^2, n^3, V^3] applied to the '
+                             'coefficient file',
+                             construct='glass model features'))
+    return res
+
+
+RULES = [no_stale, model_glass, formula_law, formula_dispatch, arity, lookup_literal, abbe,
          elementwise]
